@@ -1,3 +1,6 @@
+#[cfg(kanal_verif)]
+#[allow(unused_imports)]
+use crate::verif::{core, std};
 #[cfg(not(feature = "std-mutex"))]
 use crate::mutex::{Mutex, MutexGuard};
 use crate::signal::{Signal, SignalTerminator};
